@@ -140,13 +140,25 @@ impl OodFrame {
         }
 
         // if there is a Lagrange kernel, we treat its associated entries separately above
-        let aux_trace_width = aux_trace_width - (lagrange_kernel_frame.is_some() as usize);
+        let aux_trace_width = aux_trace_width
+            .checked_sub(lagrange_kernel_frame.is_some() as usize)
+            .ok_or_else(|| {
+                DeserializationError::InvalidValue(format!(
+                    "Lagrange kernel frame is present but there are {aux_trace_width} auxiliary columns"
+                ))
+            })?;
 
         // parse main and auxiliary trace evaluation frames. This does the reverse operation done in
         // `set_trace_states()`.
         let (current_row, next_row) = {
             let mut reader = SliceReader::new(&self.trace_states);
             let frame_size = reader.read_u8()? as usize;
+            // the evaluation frame consists of the current and the next row
+            if frame_size != 2 {
+                return Err(DeserializationError::InvalidValue(format!(
+                    "expected out-of-domain frame size to be 2, but was {frame_size}"
+                )));
+            }
             let trace = reader.read_many((main_trace_width + aux_trace_width) * frame_size)?;
 
             if reader.has_more_bytes() {
